@@ -32,9 +32,6 @@ Definition t_accept_iff_write := 6%nat.
 Definition t_prepare_invokes_handler := 7%nat.
 Definition t_queue_capacity := 8%nat.
 
-Definition mon := astate.
-Definition minit (c : cfg) : mon := ainit c.
-
 Definition is_queue_full (resp : list N) : bool := match resp with [1; _; _; _; 9] => true | _ => false end.
 
 Definition judge (c : cfg) (a : astate) (o : srv_op) (x : expect) (r : srv_out) : verdict :=
@@ -73,17 +70,7 @@ Definition judge (c : cfg) (a : astate) (o : srv_op) (x : expect) (r : srv_out) 
   | _, _ => Ok
   end.
 
-Definition mstep (c : cfg) (m : mon) (o : srv_op) (r : srv_out) : verdict * mon :=
-  let '(m', x) := astep c m o in (judge c m o x r, m').
-
-Fixpoint monitor_from (c : cfg) (m : mon) (pos : nat) (tr : list (srv_op * srv_out)) : option (nat * nat) :=
-  match tr with
-  | [] => None
-  | (o, r) :: t =>
-      match mstep c m o r with
-      | (Ok, m') => monitor_from c m' (S pos) t
-      | (Bad tag, _) => Some (pos, tag)
-      end
-  end.
-
+Definition mstep (c : cfg) (m : mon) (o : srv_op) (r : srv_out) : verdict * mon := mstep_with judge c m o r.
+Definition monitor_from (c : cfg) (m : mon) (pos : nat) (tr : list (srv_op * srv_out)) : option (nat * nat) :=
+  monitor_from_with judge c m pos tr.
 Definition monitor (c : cfg) (tr : list (srv_op * srv_out)) : option (nat * nat) := monitor_from c (minit c) O tr.
